@@ -10,8 +10,9 @@ from ..model import H
 from .common import *
 
 WHERE = ("interpreter", "src/stdlib/access/matrix.rs")
-SLICE_BASE = ["bool", "string", "matrixd", "vectord", "row_vectord", "functions", "compiler", "access", "subscript_range",
-              "subscript_slice", "logical_indexing", "subscript_formula", "tuple", "variable_define", "kind_annotation"]
+SLICE_BASE = ["f64", "bool", "string", "matrixd", "vectord", "row_vectord", "functions", "compiler", "access", "assign", "convert",
+              "subscript_range", "logical_indexing", "subscript_formula", "matrix_horzcat", "matrix_vertcat", "range_default",
+              "variable_define", "variable_assign", "kind_annotation", "tuple", "math_add", "math_sub"]
 
 # index forms: S scalar, V index vector (len k), B mask (len m), A all
 DISPATCH_1D = {"S": "impl_access_scalar_fxn", "V": "impl_access_range_fxn", "B": "impl_access_range_fxn", "A": "impl_access_all_fxn"}
@@ -26,7 +27,7 @@ MAXSEL = 3
 
 
 def slice_for(t):
-    return ",".join(SLICE_BASE + [{"bool": "bool", "String": "string"}.get(t, t)])
+    return ",".join(dict.fromkeys(SLICE_BASE + [{"bool": "bool", "String": "string"}.get(t, t)]))
 
 
 def sel_code(pos, form, dim, n):
